@@ -1744,6 +1744,10 @@ namespace jsoncons {
                         case json_storage_kind::json_ref:
                             return compare(rhs.cast<json_ref_storage>().value());
                         default:
+                            if (is_string_storage(rhs.storage_kind()) && is_number_tag(rhs.tag()))
+                            {
+                                return -rhs.compare(*this);
+                            }
                             return static_cast<int>(storage_kind()) - static_cast<int>(rhs.storage_kind());
                     }
                     break;
@@ -1772,6 +1776,10 @@ namespace jsoncons {
                         case json_storage_kind::json_ref:
                             return compare(rhs.cast<json_ref_storage>().value());
                         default:
+                            if (is_string_storage(rhs.storage_kind()) && is_number_tag(rhs.tag()))
+                            {
+                                return -rhs.compare(*this);
+                            }
                             return static_cast<int>(storage_kind()) - static_cast<int>(rhs.storage_kind());
                     }
                     break;
@@ -1855,6 +1863,11 @@ namespace jsoncons {
                                     }
                                     auto r = val1 - val2; 
                                     return r == 0 ? 0 : (r < 0.0 ? -1 : 1);
+                                }
+                                else if (is_string_storage(rhs.storage_kind()))
+                                {
+                                    // rhs is regular text: compare as text, as the regular text row does
+                                    return as_string_view().compare(rhs.as_string_view());
                                 }
                                 else
                                 {
